@@ -1003,9 +1003,17 @@ static sexp analyze_define (sexp ctx, sexp x, int depth) {
 }
 
 static sexp analyze_bind_syntax (sexp ls, sexp eval_ctx, sexp bind_ctx, int localp) {
-  sexp res = SEXP_VOID, name;
+  sexp res = SEXP_VOID, name, cell;
   sexp_gc_var2(mac, tmp);
   sexp_gc_preserve2(eval_ctx, mac, tmp);
+  /* letrec-syntax: every keyword is in scope in every transformer spec, so */
+  /* bind them all before evaluating the first spec */
+  if (localp && eval_ctx == bind_ctx)
+    for (res=ls; sexp_pairp(res); res=sexp_cdr(res))
+      if (sexp_pairp(sexp_car(res)) && sexp_idp(sexp_caar(res))
+          && !sexp_env_cell_loc1(sexp_context_env(bind_ctx), sexp_caar(res), 1, NULL))
+        sexp_env_push(eval_ctx, sexp_context_env(bind_ctx), tmp, sexp_caar(res), SEXP_VOID);
+  res = SEXP_VOID;
   for ( ; sexp_pairp(ls); ls=sexp_cdr(ls)) {
     if (! (sexp_pairp(sexp_car(ls)) && sexp_pairp(sexp_cdar(ls))
            && sexp_idp(sexp_caar(ls)) && sexp_nullp(sexp_cddar(ls)))) {
@@ -1028,7 +1036,10 @@ static sexp analyze_bind_syntax (sexp ls, sexp eval_ctx, sexp bind_ctx, int loca
       name = sexp_synclo_expr(name);
     if (sexp_macrop(mac) && sexp_pairp(sexp_cadar(ls)))
       sexp_macro_source(mac) = sexp_pair_source(sexp_cadar(ls));
-    if (localp)
+    if (localp && eval_ctx == bind_ctx
+        && (cell = sexp_env_cell_loc1(sexp_context_env(bind_ctx), name, 1, NULL)))
+      sexp_cdr(cell) = mac;
+    else if (localp)
       sexp_env_push(eval_ctx, sexp_context_env(bind_ctx), tmp, name, mac);
     else
       sexp_env_define(eval_ctx, sexp_context_env(bind_ctx), name, mac);
